@@ -407,6 +407,49 @@ def h_class_wrapper_callable(i):
     return {"reproduced": bool(bad), "observed": obs, "expected": "callable(wrapper instance) == callable(its object) for both classes"}
 
 
+# ---------------------------------------------------------------- C04: the feeder thread
+def h_feeder_swallows(i):
+    """Run the REAL Queue._feed on a buffer holding one object whose pickling raises IndexError: the error must reach
+    the error callback (with the slot released), not vanish."""
+    import collections
+    import threading
+    import loky.backend.queues as q
+
+    class Bad:
+        def __reduce__(self):
+            raise IndexError("boom while pickling")
+    from multiprocessing.queues import _sentinel
+    buf = collections.deque([Bad(), _sentinel])      # the sentinel ends the thread function right after the faulty object
+    calls, sem = [], []
+
+    class Cond:
+        def acquire(self):
+            pass
+
+        def release(self):
+            pass
+
+        def wait(self):
+            raise RuntimeError("harness: the buffer should never be found empty")
+
+    class Sem:
+        def release(self):
+            sem.append(1)
+
+    def onerror(e, obj):
+        calls.append((type(e).__name__, type(obj).__name__))
+        if len(calls) > 3:
+            raise SystemExit
+    import threading as _t
+    th = _t.Thread(target=q.Queue._feed, args=(buf, Cond(), lambda b: None, _t.Lock(), lambda: None, None, False, onerror, Sem()), daemon=True)
+    th.start()
+    th.join(10)
+    obs = {"error_callback_calls_for_the_object": [c for c in calls if c[1] == "Bad"], "slots_released": len(sem)}
+    ok = obs["error_callback_calls_for_the_object"] == [("IndexError", "Bad")]
+    return {"reproduced": not ok, "observed": obs,
+            "expected": {"error_callback_calls_for_the_object": [["IndexError", "Bad"]]}}
+
+
 def main():
     name, inputs, repo = sys.argv[1], json.loads(sys.argv[2]), sys.argv[3]
     sys.path.insert(0, repo)
